@@ -17,6 +17,7 @@ THEOREMS = [
     'Pfst.C08.quote_roundtrip', 'Pfst.C08.quote_lex_end', 'Pfst.C08.quote_clean',
     'Pfst.C08.docstr_dedent_roundtrip', 'Pfst.C08.docstr_roundtrip_partial',
     'Pfst.C08.comment_roundtrip', 'Pfst.C08.comment_roundtrip_full', 'Pfst.C08.comment_delete',
+    'Pfst.C08.comment_put_refuses', 'Pfst.C08.comment_put_one_line',
     'Pfst.C08.put_back', 'Pfst.C08.put_copy', 'Pfst.C08.replace_self',
 ]
 RULE = ('(a) repr_str_multiline on ALL strings over the 12-character alphabet {\' " \\ LF TAB CR NUL a SPACE e-acute NBSP '
@@ -34,7 +35,8 @@ TRUSTED = [
     'modelled: astutil.repr_str_multiline and _escape_char (unicode_escape codec and repr() written out; str.isprintable, '
     'repr printability and str.isspace are per-character parameters computed with CPython by the harness), the loop of '
     'FST.get_docstr, the non-empty-line indentation _indent_lns applies to a put docstring, _getput_line_comment on the '
-    'text after the statement end (regex _re_stmt_line_comment, strip rules, the no-other-statement-follows put path)',
+    'text after the statement end (regex _re_stmt_line_comment, strip rules, the refusal of \\n / \\r / NUL, the '
+    'no-other-statement-follows put path)',
     'modelled as specification (not pfst code): CPython reading of a triple-quoted literal (newline normalisation, '
     'closing-quote search, escapes \\\\ \\\' \\" \\n \\r \\t \\<newline> \\xNN \\uNNNN \\UNNNNNNNN); checked against '
     'ast.literal_eval on random literals every run',
@@ -372,7 +374,7 @@ TAILS = ['## x', '  #  # y', '###', ' #;', '', ' ', '  ', '\t', '  # c', '# c', 
          '; y = 2', ' ;y', ' y = 2', ' \\', '  # \xe9 \U0001F600', '\xa0# c', '  #\xa0c\xa0', '\x0c# c', ' #c\x0c', '  # "q" \'s\' \\', ' # type: ignore', ';;', '; ;']
 COMMENTS = ['c', 'new', '', ' ', ' lead', 'trail ', '  both  ', '#', '# x', '#x', ' # y', '\t#\tz', 'a # b', "it's \"q\" \\ back\\",
             '\xe9 \xf1 \U0001F600', 'a\x0cb', '\x0cb', 'a\x1fb', '\x1fb', 'tab\there', 'a\xa0', '\xa0a', 'a;b', ';', 'type: ignore',
-            '\u3000x', 'x\u2028y', 'a\x7f', '\\', '"""', "'''", 'a\nb']
+            '\u3000x', 'x\u2028y', 'a\x7f', '\\', '"""', "'''", 'a\nb', 'a\rb', '\rb', '# a\r', 'a\x00b', '\x00', 'a\r\nb']
 CSTMTS = [('x = 1', False), ('f(a,\n  b)', False), ('if a:', True), ('while x :', True), ('class C(B)  :', True), ('return', False)]
 
 
@@ -574,7 +576,7 @@ def _cclass(c):
     return 'plain'
 
 
-SWEEP_COMMENTS = [c for c in COMMENTS if '\n' not in c] + ['a\rb', '\rb', 'a\x00b', 'x' * 60]
+SWEEP_COMMENTS = [c for c in COMMENTS if '\n' not in c] + ['x' * 60]      # incl. '\r' / NUL texts: must be refused or harmless
 
 
 def _comment_case(arg):
@@ -808,7 +810,9 @@ def _struct_case(arg):
 def _own_src_check(f):
     from fst import FST
     try:
-        s = f.own_src(docstr=False)
+        # statements: docstr=False (the default dedents docstrings, changing their value by design); a string
+        # Constant is an expression, its own source is verbatim whatever the option (also the Constant of a docstring)
+        s = f.own_src() if f.a.__class__ is ast.Constant else f.own_src(docstr=False)
     except Exception as e:
         return 'crash:' + type(e).__name__, str(e)[:200]
     want = _CTX_RE.sub('ctx=_', ast.dump(f.a))
@@ -936,7 +940,12 @@ def replay(ctx, data):
         try:
             f.put_line_comment(w['comment'], full=w['full'])
         except Exception as e:
-            ctx.fail('replay', f'raised {e!r}', w)
+            if type(e).__name__ in REFUSALS:
+                print(f'the accessor refuses the text ({e}); tree unchanged: {ast.dump(root.a) == d0}')
+                if ast.dump(root.a) != d0:
+                    ctx.fail('replay', 'refused but the tree changed', w)
+            else:
+                ctx.fail('replay', f'raised {e!r}', w)
             return
         got = f.get_line_comment(full=w['full'])
         exp = w['comment'] if w['full'] else w['comment'].strip()
